@@ -33,7 +33,7 @@ func (c04) Meta() fw.Meta {
 			"clock domain: maxRetention + 2*maxStep <= now and now + 2*maxStep < 2^32",
 			"the Fetch() convenience wrapper is driven through the library's settable clock whispertool.Now (one worker process = one clock)",
 		},
-		Obligations: []string{"shape_checks", "absent_future", "absent_too_old", "error_from_after_until", "error_bad_id", "degenerate_extended", "clamped_from", "clamped_until", "best_selected_coarser", "never_written_checked", "written_checked", "wrapper_fetch_checked", "reader_clock_behind_passes", "ticking_default_clock_fetches", "remote_fetches", "concurrent_noise_requests_served", "remote_fetches_in_a_non_utc_zone"},
+		Obligations: []string{"shape_checks", "absent_future", "absent_too_old", "error_from_after_until", "error_bad_id", "degenerate_extended", "clamped_from", "clamped_until", "best_selected_coarser", "never_written_checked", "written_checked", "wrapper_fetch_checked", "reader_clock_behind_passes", "ticking_default_clock_fetches", "remote_fetches", "concurrent_noise_requests_served", "remote_fetches_in_a_non_utc_zone", "values_checked_against_their_instants"},
 	}
 }
 
@@ -135,6 +135,7 @@ func (c04) Run(c *fw.Ctx) {
 	// the whole id x window product is run twice: at the clock of the writes, and at an EARLIER clock (a reader
 	// whose clock is behind the writer's: slots then hold intervals "from the future"); the shape must not care
 	writeClock := now
+	rawByFile := map[int]model.Raw{}
 	for pass := 0; pass < 2; pass++ {
 		if pass == 1 {
 			a := l.Archs[r.Intn(k)]
@@ -215,6 +216,27 @@ func (c04) Run(c *fw.Ctx) {
 							key = "shape-absent-mismatch"
 						}
 						c.Violationf(key, detail, "file %s id %d window [%d,%d] now %d: got %s, contract demands %s", f.name, id, from, until, now, fw.JSON(o), fw.JSON(want))
+					}
+					// "the i-th [value] belonging to instant from+i*step": with the reader's clock behind the writer's, a slot
+					// may hold a later lap of its interval - the value reported for an instant is the one stored FOR that instant
+					if pass == 1 && fi > 0 && ts != nil && err == nil && want.Arch >= 0 && want.Arch < k && int(o.N) == len(ts.Values()) && o.N <= 2000 {
+						if rawByFile[fi] == nil {
+							rawByFile[fi], _ = rawOf(f.db)
+						}
+						if rw := rawByFile[fi]; rw != nil {
+							a := l.Archs[want.Arch]
+							for i, v := range ts.Values() {
+								iv := o.From + int64(i)*o.Step
+								bits, ok := model.RingLookup(rw[want.Arch], a, iv)
+								got := float64(v)
+								if (ok && math.Float64bits(got) != bits) || (!ok && got == got) {
+									c.Violationf("value-of-another-instant", fw.J{"layout": l, "now": now, "write_clock": writeClock, "id": id, "from": from, "until": until, "file": f.name, "index": i, "instant": iv, "got": got, "stored_for_that_instant": ok},
+										"file %s id %d window [%d,%d] reader clock %d (writer clock %d): value %d (instant %d) is %v, but the archive holds %s for that instant", f.name, id, from, until, now, writeClock, i, iv, got, map[bool]string{true: "another value", false: "nothing"}[ok])
+									return
+								}
+							}
+							c.Count("values_checked_against_their_instants", int64(len(ts.Values())))
+						}
 					}
 					if fi > 0 && (o.Err != first.Err || o.Absent != first.Absent || o.From != first.From || o.Until != first.Until || o.Step != first.Step || o.N != first.N) {
 						c.Violationf("shape-depends-on-content", fw.J{"layout": l, "now": now, "id": id, "from": from, "until": until, "never_written": first, "written": o, "file": f.name},
